@@ -292,6 +292,7 @@ def run(tier, seed, replay):
         ok, hwm, sres = vlib.run_strict("PaginateTrace", "PaginateTrace.cfg", sp, timeout=1500, heap_gb=8)
         v.add_tlc("PaginateTrace", sres)
         if ok:
+            os.remove(sp)  # identical to obs.ndjson minus rejected traces; kept only when there is drift
             break
         tr2 = vlib.split_traces(cur_rows)
         if hwm is None or hwm < 1:
